@@ -39,6 +39,27 @@ class SchedPool(OrderedPool):
         return iter([f(xs[i]) for i in order])
 
 
+class ExecutorPool(OrderedPool):
+    """A concurrent.futures-style executor (ThreadPoolExecutor, MPIPoolExecutor, ...): has submit() returning Future objects and an in-order
+    map(), but no imap.  Results must be attached to the particles in SUBMISSION order whatever the completion order."""
+
+    def map(self, f, xs, timeout=None, chunksize=1):
+        return iter(super().map(f, xs))
+
+    def submit(self, fn, *a, **k):
+        from concurrent.futures import Future
+        fut = Future()
+        try:
+            fut.set_result(fn(*a, **k))
+        except Exception as e:  # pragma: no cover
+            fut.set_exception(e)
+        self.submitted = getattr(self, "submitted", 0) + 1
+        return fut
+
+    def shutdown(self, wait=True, **k):
+        pass
+
+
 def _trace_monitor(store):
     def mon(ev):
         p = ev.probe
@@ -106,6 +127,7 @@ def run_modes(case):
     modes.append(("ordered-pool", dict(cfg, eval=pe), OrderedPool()))
     modes.append(("lazy-pool", dict(cfg, eval=pe), LazyPool()))
     modes.append(("sched-pool", dict(cfg, eval=pe), SchedPool()))
+    modes.append(("executor-pool", dict(cfg, eval=pe), ExecutorPool()))
     shard, nshards = case.get("shard", 0), case.get("nshards", 1)
     if shard != 0:
         modes = []
@@ -118,7 +140,7 @@ def run_modes(case):
         cc = dict(case, mode=name)
         _compare(res, name, f"{name} cfg={cfg}", cc, ref_tr, tr, ref_p, p)
         _calls_ok(res, name, f"{name} cfg={cfg}", cc, tr)
-        if pool is not None and p.exc is None and sum(pool.batch_sizes) != p.ll.n and name != "sched-pool":
+        if pool is not None and p.exc is None and sum(pool.batch_sizes) != p.ll.n and name not in ("sched-pool", "executor-pool"):
             res.violate(f"{name}:batch-accounting", f"{name}: pool saw {sum(pool.batch_sizes)} points, likelihood evaluated {p.ll.n}", cc)
         res.outcome((name, tuple(sorted((k, repr(v)) for k, v in cfg.items())), blobs), nontrivial=False)
     # schedules: permutations of the batch at deviating map calls
